@@ -18,7 +18,11 @@ def str_method(B, st, s, name, args, kwargs, node):
     eng = B.eng
     t = s.t
     if name == "startswith":
-        return VBool(z3.PrefixOf(args[0].t, t))
+        a = args[0].t
+        if z3.is_string_value(a) and len(a.as_string()) == 1:
+            # link to the character view used by s[0]: a one-character prefix is the first character
+            return VBool(z3.And(z3.Length(t) >= 1, char_at(t, z3.IntVal(0)) == a))
+        return VBool(z3.PrefixOf(a, t))
     if name == "endswith":
         return VBool(z3.SuffixOf(args[0].t, t))
     if name == "lower":
